@@ -57,9 +57,20 @@ def render(root, sc, trace, rng):
             more += '    provides = {"v": "//%s:t%d"},\n' % (pkg[prov], prov)
         if t in (sc.get("requirers") or []):
             more += '    requires = ["v"],\n'
+        outs = '"t%d.out"' % t
+        depattr = "srcs"
+        if sc.get("datadeps"):
+            # dependencies declared as data: still dependencies of the build graph, but not inputs that get hashed before the
+            # command runs, so a dependent that is wrongly let through really starts its command; failing targets declare many
+            # outputs, which makes their clean-up after the failure slow
+            depattr = "data"
+            cmd = cmd.replace("cat $SRCS /dev/null > $OUT", "echo x > $OUT")
+            if fail:
+                outs = ", ".join('"t%d_o/o%d"' % (t, j) for j in range(30))
+                cmd = cmd.replace("exit 1", "for o in $OUTS; do echo x > $o; done; exit 1")
         builds.setdefault(pkg[t], []).append(
-            'genrule(\n    name = "t%d",\n    srcs = [%s],\n    outs = ["t%d.out"],\n    cmd = %s,\n    visibility = ["PUBLIC"],\n%s)\n'
-            % (t, ", ".join(srcs), t, json.dumps(cmd), more))
+            'genrule(\n    name = "t%d",\n    %s = [%s],\n    outs = [%s],\n    cmd = %s,\n    visibility = ["PUBLIC"],\n%s)\n'
+            % (t, depattr, ", ".join(srcs), outs, json.dumps(cmd), more))
         if fault[t - 1] == "parseerr":
             builds[pkg[t]].append('this is ( not a valid BUILD file\n')
     for p, rules in builds.items():
@@ -275,6 +286,15 @@ def extra_scenarios(ctx, count):
             deps += [[], [], [3 * j + 1, 3 * j + 2]]
         out.append(dict(n=n, deps=deps, req=[3 * j + 3 for j in range(k)], fail=[], keepGoing=False, expectOK=True,
                         buildable=list(range(1, n + 1)), threads=16, origin="twins", twins=True))
+    # "failing pairs": many independent (failing target, dependent) pairs under --keep_going: the dependent must never start,
+    # however the failure path of the dependency interleaves with the dependent's wake-up
+    for i in range(max(1, count // 8)):
+        k = 20
+        deps, n = [], 2 * k
+        for j in range(k):
+            deps += [[], [2 * j + 1]]
+        out.append(dict(n=n, deps=deps, req=[2 * j + 2 for j in range(k)], fail=[2 * j + 1 for j in range(k)], keepGoing=True,
+                        expectOK=False, buildable=[], threads=16, origin="failing-pairs", datadeps=True))
     return out
 
 
